@@ -31,6 +31,10 @@ pub struct GenCfg {
   pub wide: bool,
   /// Share (out of 10) of cases whose programs use only exact checkers.
   pub exact_share: u32,
+  /// Share (out of 10) of cases in which repeated accesses may use a different checker (C08-F1/F2 class).
+  pub multi_checker_share: u32,
+  /// Set per case by the builder.
+  pub multi_checker: bool,
   /// History contains SetFaults steps (C18).
   pub fault_steps: bool,
   /// History contains ArmPanic steps (C19).
@@ -43,7 +47,7 @@ impl GenCfg {
       max_tasks: 6, max_src: 3, max_gen: 3, max_stmts: 5, max_steps: 8,
       rchks: RCHKS.to_vec(), ochks: OCHKS.to_vec(), wchks: vec![RChk::Exact],
       faulty: false, multi_access: true, bottom_up: false, dyn_targets: true, written_to: true,
-      bottom_up_weight: 3, wide: false, exact_share: 3, fault_steps: false, panic_steps: false,
+      bottom_up_weight: 3, wide: false, exact_share: 3, fault_steps: false, panic_steps: false, multi_checker_share: 0, multi_checker: false,
     }
   }
   pub fn thorough() -> Self {
@@ -163,12 +167,12 @@ impl<'c> Builder<'c> {
 
   /// A variable to read: prefers variables assigned on this path.
   fn rvar(&self, rd: &mut Rd, px: &PathCtx) -> u8 {
-    if px.assigned.is_empty() { rd.pick(NVARS) as u8 } else { px.assigned[px.assigned.len() - 1 - rd.pick(px.assigned.len())] }
+    if px.assigned.is_empty() { rd.pick(GVARS) as u8 } else { px.assigned[px.assigned.len() - 1 - rd.pick(px.assigned.len())] }
   }
   /// A variable to assign: prefers fresh variables so that earlier observations stay usable.
   fn wvar(&self, rd: &mut Rd, px: &mut PathCtx) -> u8 {
-    let fresh: Vec<u8> = (0..NVARS as u8).filter(|v| !px.assigned.contains(v)).collect();
-    let v = if !fresh.is_empty() && !rd.chance(1, 4) { fresh[0] } else { rd.pick(NVARS) as u8 };
+    let fresh: Vec<u8> = (0..GVARS as u8).filter(|v| !px.assigned.contains(v)).collect();
+    let v = if !fresh.is_empty() && !rd.chance(1, 4) { fresh[0] } else { rd.pick(GVARS) as u8 };
     if !px.assigned.contains(&v) { px.assigned.push(v); }
     v
   }
@@ -200,10 +204,10 @@ impl<'c> Builder<'c> {
     let k = if depth >= 2 { rd.pick(2) } else { rd.pick(6) };
     match k {
       0 => Expr::Const(rd.pick(8) as u8),
-      1 => Expr::Var(rd.pick(NVARS) as u8),
+      1 => Expr::Var(rd.pick(GVARS) as u8),
       2 => Expr::Add(Box::new(self.expr(rd, depth + 1)), Box::new(self.expr(rd, depth + 1))),
-      3 => Expr::Eq(Box::new(Expr::Var(rd.pick(NVARS) as u8)), Box::new(Expr::Const(rd.pick(6) as u8))),
-      4 => Expr::Lt(Box::new(Expr::Var(rd.pick(NVARS) as u8)), Box::new(Expr::Const(1 + rd.pick(5) as u8))),
+      3 => Expr::Eq(Box::new(Expr::Var(rd.pick(GVARS) as u8)), Box::new(Expr::Const(rd.pick(6) as u8))),
+      4 => Expr::Lt(Box::new(Expr::Var(rd.pick(GVARS) as u8)), Box::new(Expr::Const(1 + rd.pick(5) as u8))),
       _ => Expr::Mul(Box::new(self.expr(rd, depth + 1)), Box::new(self.expr(rd, depth + 1))),
     }
   }
@@ -211,8 +215,8 @@ impl<'c> Builder<'c> {
   #[allow(dead_code)]
   fn cond(&self, rd: &mut Rd) -> Expr {
     match rd.pick(3) {
-      0 => Expr::Lt(Box::new(Expr::Var(rd.pick(NVARS) as u8)), Box::new(Expr::Const(1 + rd.pick(4) as u8))),
-      1 => Expr::Eq(Box::new(Expr::Var(rd.pick(NVARS) as u8)), Box::new(Expr::Const(rd.pick(5) as u8))),
+      0 => Expr::Lt(Box::new(Expr::Var(rd.pick(GVARS) as u8)), Box::new(Expr::Const(1 + rd.pick(4) as u8))),
+      1 => Expr::Eq(Box::new(Expr::Var(rd.pick(GVARS) as u8)), Box::new(Expr::Const(rd.pick(5) as u8))),
       _ => self.expr(rd, 1),
     }
   }
@@ -374,9 +378,16 @@ impl<'c> Builder<'c> {
         _ => {
           // Multi-access: repeat an earlier access of this path with the same checker (into a possibly different var).
           let st = px.accessed[rd.pick(px.accessed.len())].clone();
+          let other = self.cfg.multi_checker && rd.chance(2, 3);
           let st = match st {
-            Stmt::Read { res, chk, faulty, .. } => Stmt::Read { res, chk, faulty, var: self.wvar(rd, px) },
-            Stmt::Require { task, chk, .. } => Stmt::Require { task, chk, var: self.wvar(rd, px) },
+            Stmt::Read { res, chk, faulty, .. } => {
+              let chk = if other { let alts: Vec<RChk> = self.cfg.rchks.iter().cloned().filter(|c| *c != chk).collect(); if alts.is_empty() { chk } else { alts[rd.pick(alts.len())] } } else { chk };
+              Stmt::Read { res, chk, faulty, var: self.wvar(rd, px) }
+            }
+            Stmt::Require { task, chk, .. } => {
+              let chk = if other { let alts: Vec<OChk> = self.cfg.ochks.iter().cloned().filter(|c| *c != chk).collect(); if alts.is_empty() { chk } else { alts[rd.pick(alts.len())] } } else { chk };
+              Stmt::Require { task, chk, var: self.wvar(rd, px) }
+            }
             s => s,
           };
           out.push(st);
@@ -391,17 +402,23 @@ fn uncond_requires(body: &[Stmt]) -> Vec<TaskId> {
   body.iter().filter_map(|s| if let Stmt::Require { task: Target::Fixed(u), .. } = s { Some(*u) } else { None }).collect()
 }
 
-pub fn build_program(g: &Genome, cfg: &GenCfg) -> Program {
+pub fn build_program(g: &Genome, cfg: &GenCfg) -> Program { build_program_with(g, cfg, None) }
+
+/// `force` = (number of tasks, number of resources) for role-changing programs whose modes share both.
+pub fn build_program_with(g: &Genome, cfg: &GenCfg, force: Option<(usize, u8)>) -> Program {
   let mut lay = Rd::new(&g.layout);
   let mut cfg_local = cfg.clone();
   if cfg.exact_share > 0 && lay.chance(cfg.exact_share, 10) {
     cfg_local.rchks = vec![RChk::Exact];
     cfg_local.ochks = vec![OChk::Equals, OChk::IEquals];
   }
+  if cfg.multi_checker_share > 0 && lay.chance(cfg.multi_checker_share, 10) { cfg_local.multi_checker = true; }
   let cfg = &cfg_local;
-  let n_tasks = g.tasks.len().clamp(1, cfg.max_tasks);
-  let n_src = 1 + lay.pick(cfg.max_src as usize) as u8;
-  let n_gen = lay.pick(cfg.max_gen as usize + 1) as u8;
+  let n_tasks = match force { Some((n, _)) => n, None => g.tasks.len().clamp(1, cfg.max_tasks) };
+  let (n_src, n_gen) = match force {
+    Some((_, n_res)) => { let n_src = 1 + lay.pick(n_res as usize) as u8; (n_src, n_res - n_src) }
+    None => (1 + lay.pick(cfg.max_src as usize) as u8, lay.pick(cfg.max_gen as usize + 1) as u8),
+  };
   let n_res = n_src + n_gen;
   let mut writers = vec![];
   for _ in 0..n_gen {
@@ -421,7 +438,8 @@ pub fn build_program(g: &Genome, cfg: &GenCfg) -> Program {
   let mut b = Builder { cfg, n_tasks, n_src, n_res, writers: writers.clone(), uncond: vec![BTreeSet::new(); n_tasks] };
   let mut tasks: Vec<Script> = vec![Script::default(); n_tasks];
   for me in (0..n_tasks).rev() {
-    let mut rd = Rd::new(&g.tasks[me]);
+    let empty: Vec<u16> = vec![];
+    let mut rd = Rd::new(g.tasks.get(me).unwrap_or(&empty));
     let tb = Tables {
       r_uniform: rd.chance(1, 2),
       o_uniform: rd.chance(1, 2),
@@ -552,7 +570,7 @@ fn unconditional_generated(prog: &mut Program, rd: &mut Rd) -> (ResId, TaskId) {
   let body = &mut prog.tasks[w as usize].body;
   strip_writes(body, g);
   let via = if rd.chance(1, 4) { Via::WrittenTo } else { Via::Ctx };
-  let val = if rd.chance(1, 2) { Expr::Const(rd.pick(4) as u8) } else { Expr::Var(rd.pick(NVARS) as u8) };
+  let val = if rd.chance(1, 2) { Expr::Const(rd.pick(4) as u8) } else { Expr::Var(rd.pick(GVARS) as u8) };
   let at = rd.pick(body.len() + 1);
   body.insert(at, Stmt::Write { res: Target::Fixed(g), chk: RChk::Exact, faulty: false, val, via });
   (g, w)
@@ -568,7 +586,7 @@ pub fn inject_hidden(case: &mut Case, stream: &[u16]) {
   let chk = RCHKS[rd.pick(RCHKS.len())];
   let body = &mut case.prog.tasks[x as usize].body;
   let at = rd.pick(body.len() + 1);
-  body.insert(at, Stmt::Read { res: Target::Fixed(g), chk, faulty: false, var: rd.pick(NVARS) as u8 });
+  body.insert(at, Stmt::Read { res: Target::Fixed(g), chk, faulty: false, var: rd.pick(GVARS) as u8 });
   case.inject = Some(Inject::Hidden { g, writer: w, reader: x });
 }
 
@@ -620,7 +638,7 @@ pub fn inject_cycle(case: &mut Case, stream: &[u16]) {
   let non_self = pairs.len() - n;
   let (from, to) = if non_self > 0 && !rd.chance(1, 6) { pairs[rd.pick(non_self)] } else { pairs[non_self + rd.pick(n)] };
   let chk = OCHKS[rd.pick(OCHKS.len())];
-  let req = Stmt::Require { task: Target::Fixed(to), chk, var: rd.pick(NVARS) as u8 };
+  let req = Stmt::Require { task: Target::Fixed(to), chk, var: rd.pick(GVARS) as u8 };
   let guarded = case.prog.n_src > 0 && rd.chance(1, 2);
   let body = &mut case.prog.tasks[from as usize].body;
   let at = rd.pick(body.len() + 1);
@@ -657,4 +675,115 @@ pub fn injected_case_strategy(cfg: GenCfg, kind: InjectKind, plain_share: u32) -
     }
     case
   })
+}
+
+// ---------------------------------------------------------------------------------------------------------------------
+// Role-changing programs (C20): well-formed in every state, but who writes / reads / requires whom depends on a
+// `mode` source resource that every task reads first.
+
+fn rename_block(block: &[Stmt], perm: &[TaskId]) -> Vec<Stmt> {
+  block.iter().map(|s| match s {
+    Stmt::Require { task: Target::Fixed(u), chk, var } => Stmt::Require { task: Target::Fixed(perm[*u as usize]), chk: *chk, var: *var },
+    Stmt::If { cond, then, els } => Stmt::If { cond: cond.clone(), then: rename_block(then, perm), els: rename_block(els, perm) },
+    other => other.clone(),
+  }).collect()
+}
+
+#[derive(Serialize, Deserialize, Clone, Debug, PartialEq, Eq, Hash, Default)]
+pub struct RoleGenome {
+  pub modes: Vec<Genome>,
+  pub layout: Vec<u16>,
+  pub steps: Vec<Vec<u16>>,
+}
+
+pub fn role_genome_strategy(cfg: &GenCfg) -> impl Strategy<Value=RoleGenome> {
+  (
+    proptest::collection::vec(genome_strategy(cfg), 2..=3),
+    proptest::collection::vec(any::<u16>(), 0..=24),
+    proptest::collection::vec(proptest::collection::vec(any::<u16>(), 0..=10), 2..=cfg.max_steps),
+  ).prop_map(|(modes, layout, steps)| RoleGenome { modes, layout, steps })
+}
+
+pub fn build_role_case(g: &RoleGenome, cfg: &GenCfg) -> Case {
+  let mut cfg = cfg.clone();
+  cfg.dyn_targets = false; // ranges of task ids cannot be permuted
+  cfg.exact_share = 0;
+  let mut lay = Rd::new(&g.layout);
+  let n_tasks = 2 + lay.pick(cfg.max_tasks - 1);
+  let n_res = 2 + lay.pick((cfg.max_src + cfg.max_gen) as usize - 1) as u8;
+  let mode_res: ResId = n_res;
+  let n_modes = g.modes.len();
+  let mut progs = vec![];
+  let mut perms: Vec<Vec<TaskId>> = vec![];
+  for (m, mg) in g.modes.iter().enumerate() {
+    progs.push(build_program_with(mg, &cfg, Some((n_tasks, n_res))));
+    // perm[position] = task id
+    let mut perm: Vec<TaskId> = (0..n_tasks as TaskId).collect();
+    if m > 0 {
+      for i in (1..n_tasks).rev() { let j = lay.pick(i + 1); perm.swap(i, j); }
+      // make sure at least one inversion relative to mode 0 when possible
+      if perm.iter().enumerate().all(|(i, p)| i as TaskId == *p) && n_tasks >= 2 { perm.swap(0, n_tasks - 1); }
+    }
+    perms.push(perm);
+  }
+  let mode_var = GVARS as u8; // reserved variable 4
+  let mut tasks = vec![];
+  for t in 0..n_tasks {
+    let mut body = vec![Stmt::Read { res: Target::Fixed(mode_res), chk: RChk::Exact, faulty: false, var: mode_var }];
+    // nested if-else chain over modes; the last mode is the else branch
+    let mut chain: Vec<Stmt> = vec![];
+    let mut out: Option<Expr> = None;
+    for m in (0..n_modes).rev() {
+      let pos = perms[m].iter().position(|x| *x as usize == t).unwrap();
+      let b = rename_block(&progs[m].tasks[pos].body, &perms[m]);
+      let o = progs[m].tasks[pos].out.clone().unwrap_or(Expr::Const(0));
+      if m == n_modes - 1 {
+        chain = b;
+        out = Some(o);
+      } else {
+        let cond = Expr::Eq(Box::new(Expr::Var(mode_var)), Box::new(Expr::Const(m as u8 + 1)));
+        chain = vec![Stmt::If { cond: cond.clone(), then: b, els: chain }];
+        out = Some(Expr::Ite(Box::new(cond), Box::new(o), Box::new(out.unwrap())));
+      }
+    }
+    body.extend(chain);
+    tasks.push(Script { body, out });
+  }
+  let mut init = progs[0].init.clone();
+  init.insert(mode_res, 0);
+  let prog = Program { tasks, n_src: n_res + 1, n_res: n_res + 1, writers: vec![], init };
+  // History: sessions, mode flips, other changes, bottom-up builds with complete reports.
+  let mut steps = vec![];
+  let mut pending: Vec<ResId> = vec![];
+  for (i, s) in g.steps.iter().enumerate().take(cfg.max_steps) {
+    let mut rd = Rd::new(s);
+    let k = if i == 0 { 0 } else { [0, 0, 0, 1, 1, 1, 2, 2, 3][rd.pick(if cfg.bottom_up { 9 } else { 8 })] };
+    match k {
+      0 => {
+        let n_roots = 1 + rd.pick(3);
+        steps.push(Step::Session { builds: (0..n_roots).map(|_| Build::TopDown(rd.pick(n_tasks) as TaskId)).collect() });
+      }
+      1 => {
+        let v = rd.pick(n_modes) as Val;
+        steps.push(Step::Change { res: mode_res, val: Some(v) });
+        if !pending.contains(&mode_res) { pending.push(mode_res); }
+      }
+      2 => {
+        let res = rd.pick(n_res as usize) as ResId;
+        let v = rd.pick(5);
+        steps.push(Step::Change { res, val: if v < 4 { Some(v as Val) } else { None } });
+        if !pending.contains(&res) { pending.push(res); }
+      }
+      _ => {
+        let report = std::mem::take(&mut pending);
+        let n_then = rd.pick(3);
+        steps.push(Step::Session { builds: vec![Build::BottomUp { report, then: (0..n_then).map(|_| rd.pick(n_tasks) as TaskId).collect() }] });
+      }
+    }
+  }
+  Case { prog, hist: History { steps }, inject: None }
+}
+
+pub fn role_case_strategy(cfg: GenCfg) -> impl Strategy<Value=Case> {
+  role_genome_strategy(&cfg).prop_map(move |g| build_role_case(&g, &cfg))
 }
